@@ -5,6 +5,8 @@ M-Sys: "no script is run by two pids" (`Uniq`) from a static condition on the sc
 SpawnAction events, SpawnProcess commands and processes.
 -/
 namespace QM.Sys
+set_option linter.unusedSectionVars false
+variable [Cfg]
 
 structure SpawnOnce (prog : Prog) : Prop where
   main : ∀ (k j : Nat) (pass : List Nat), ¬ ((prog.getD k ([] : Script))[j]? = some (Act.spawn 0 pass))
